@@ -797,6 +797,10 @@ def vc_set(it=()):
 
 
 def vc_list(it=()):
+    if isinstance(it, SSeq):
+        return SSeq(it.n, it.at, list, it.name)
+    if isinstance(it, SIter) and getattr(it, "_indexed", None) is not None:
+        return SSeq(it._indexed[0], it.elem, list)
     if isinstance(it, SList):
         return it.copy()
     if isinstance(it, SSet):
@@ -839,7 +843,18 @@ def vc_max(it, key=None, _min=False):
     return col.elem(h)
 
 
+def _real_types(cls):
+    m = {vc_tuple: tuple, vc_list: list, vc_set: set, vc_bool: bool}
+    if isinstance(cls, tuple):
+        return tuple(_real_types(c) for c in cls)
+    try:
+        return m.get(cls, cls)
+    except TypeError:
+        return cls
+
+
 def vc_isinstance(x, cls):
+    cls = _real_types(cls)
     if hasattr(x, "_vc_isinstance"):
         return x._vc_isinstance(cls)
     if isinstance(x, Sym):
@@ -892,6 +907,10 @@ def comp(kind, iterable, elt, cond=None):
 
     cnt = col.count if cond is None else None
     it = SIter(col.sort, newpred, elem, count=cnt)
+    if cond is None and getattr(col, "_indexed", None) is not None:
+        it._indexed = col._indexed  # an order preserving map over a sequence
+        if kind == "list":
+            return SSeq(col._indexed[0], elem, list)
     if kind in ("list", "gen"):
         return it
     raise Unsupported("mapped set comprehension over a symbolic collection")
@@ -918,3 +937,62 @@ class Inert:
 
 def K_false(sort):
     return z3.K(sort, False)
+
+
+class SSeq(Sym):
+    """A Python tuple / list of symbolic length: `n` (Int term) and `at(i)` (Int term -> proxy).  Immutable view."""
+
+    def __init__(self, n, at, kind=tuple, name="seq"):
+        self.n, self.at, self.kind, self.name = n, at, kind, name
+
+    @staticmethod
+    def fresh(name, elem_of_index, kind=tuple):
+        n = C.fresh("len_" + name, I)
+        C.assume(n >= 0)
+        return SSeq(n, elem_of_index, kind, name)
+
+    def _vc_len(self):
+        return SInt(self.n)
+
+    def _vc_bool(self):
+        return SBool(self.n != 0)
+
+    def __bool__(self):
+        return bool(self._vc_bool())
+
+    def __getitem__(self, i):
+        it = ti(i)
+        C.check(z3.And(it >= 0, it < self.n), f"no_internal_error.{self.name}_index_in_range", serves={"C14"}, kind="internal")
+        C.assume(it >= 0, it < self.n)
+        return self.at(it)
+
+    def _vc_iter(self):
+        it = SIter(I, lambda i: z3.And(i >= 0, i < self.n), lambda i: self.at(i), count=self.n)
+        it._indexed = (self.n, self.kind)
+        return it
+
+    def _vc_enumerate(self):
+        return SIter(I, lambda i: z3.And(i >= 0, i < self.n), lambda i: (SInt(i), self.at(i)), count=self.n)
+
+    def _vc_isinstance(self, cls):
+        classes = cls if isinstance(cls, tuple) else (cls,)
+        return any(issubclass(self.kind, c) for c in classes if isinstance(c, type))
+
+    def __iter__(self):
+        raise Unsupported("native iteration over a symbolic sequence")
+
+
+def vc_enumerate(it, start=0):
+    if hasattr(it, "_vc_enumerate") and start == 0:
+        return it._vc_enumerate()
+    return enumerate(it, start)
+
+
+def vc_tuple(it=()):
+    if isinstance(it, SSeq):
+        return SSeq(it.n, it.at, tuple, it.name)
+    if isinstance(it, SIter) and getattr(it, "_indexed", None) is not None:
+        return SSeq(it._indexed[0], it.elem, tuple)
+    if isinstance(it, Sym):
+        raise Unsupported(f"tuple() of {type(it).__name__}")
+    return tuple(it)
